@@ -87,9 +87,16 @@ impl<T> IpMatcher<T> {
         let mut routes = self.no_matcher.match_request(request);
 
         if let Some(remote_addr) = request.remote_addr.as_ref() {
+            // a route with several ranges is stored once per range, it must be returned only once
+            let mut route_ids = HashSet::new();
+
             for (ip_cidr, matcher) in &self.matchers {
                 if ip_cidr.match_ip(remote_addr) {
-                    routes.extend(matcher.match_request(request));
+                    for route in matcher.match_request(request) {
+                        if route_ids.insert(route.id().to_string()) {
+                            routes.push(route);
+                        }
+                    }
                 }
             }
         }
